@@ -135,9 +135,9 @@ pub open spec fn is_first_not_before(stream: &StreamContext, a: int, p: int) -> 
         && (forall|j: int| p <= j < stream.filtered_msgs@.len() ==> (#[trigger] stream.filtered_msgs@[j]) >= a)
     } else { p == a }
 }
-//@ extract src/bin/adlt/remote.rs region `let all_msgs_idx = fc .all_msgs .binary_search_by(|m| m.index` .. `if let Ok(all_msgs_idx) = all_msgs_idx` in fn binary_search_by_msg_index
+//@ extract src/bin/adlt/remote.rs region `let all_msgs_idx = fc .all_msgs .binary_search_by(` .. `$end` in fn binary_search_by_msg_index
 //@   sig pub fn lookup_by_index(wanted_msg_idx: DltMessageIndexType, all_msgs: &Vec<DltMessage>, stream: &StreamContext) -> (r: Result<usize, String>)
-//@   sub R11 `fc .all_msgs .binary_search_by(|m| m.index.cmp(&wanted_msg_idx))` => `vx_bsearch_msg_index(all_msgs, wanted_msg_idx)`
+//@   sub R11 `fc .all_msgs .binary_search_by(__)` => `vx_bsearch_msg_index(all_msgs, wanted_msg_idx)`
 //@   sub R11 `stream .filtered_msgs .binary_search(&all_msgs_idx) .unwrap_or_else(|e| e)` => `vx_ok_or_err(vx_bsearch_usize(&stream.filtered_msgs, all_msgs_idx))`
 //@   spec
 //@|    requires
@@ -152,7 +152,41 @@ pub open spec fn is_first_not_before(stream: &StreamContext, a: int, p: int) -> 
 // ---- time lookup (stream_binary_search time_ms=<t>) ----
 // msg_time: the time the closure of binary_search_by_time_us computes for a message (lifecycle start from a snapshot of the
 // lifecycle table + timestamp, or the reception time when the lifecycle is unknown): a fixed function during one lookup (R11)
-pub uninterp spec fn msg_time(m: DltMessage) -> u64;
+// the snapshot of lifecycle start times taken at the beginning of a lookup (BTreeMap filled from the evmap read handle): a fixed
+// partial function during one lookup; start times are below 2^53 us (R11, assumed)
+pub uninterp spec fn lc_start_of(lc: u32) -> Option<u64>;
+pub struct VxLcMap { pub vx_dummy: u8 }
+#[verifier::external_body]
+pub fn vx_lc_get<'a>(map: &'a VxLcMap, lc: &u32) -> (r: Option<&'a u64>)
+    ensures (match r { Some(s) => lc_start_of(*lc) == Some(*s) && *s <= 0x20_0000_0000_0000, None => lc_start_of(*lc) is None }),
+{ unimplemented!() }
+impl DltMessage {
+//@ extract src/dlt/mod.rs DltMessage::timestamp_us
+//@   spec
+//@|    ensures r == self.timestamp_dms as int * 100, r <= 429_496_729_500,
+//@ end
+}
+pub open spec fn msg_time(m: DltMessage) -> u64 {
+    match lc_start_of(m.lifecycle) { Some(s) => (s + m.timestamp_dms as int * 100) as u64, None => m.reception_time_us }
+}
+// the predicate handed to partition_point by binary_search_by_time_us (closure #2 of that function)
+//@ extract src/bin/adlt/remote.rs closure fn binary_search_by_time_us#2
+//@   when `.partition_point(`
+//@   sig pub fn lookup_time_pred(m: &DltMessage, lc_id_map: &VxLcMap, time_us: u64) -> (r: bool)
+//@   sub R11 `lc_id_map.get(&m.lifecycle)` => `vx_lc_get(lc_id_map, &m.lifecycle)`
+//@   spec
+//@|    ensures r == (msg_time(*m) < time_us), // O:lookup.time.pred (the partition predicate is "earlier than the requested time")
+//@ end
+// the shape of the pinned tree (finding F15): a comparator handed to binary_search_by
+//@ extract src/bin/adlt/remote.rs closure fn binary_search_by_time_us#2
+//@   when `.binary_search_by(`
+//@   sig pub fn lookup_time_cmp(m: &DltMessage, lc_id_map: &VxLcMap, time_us: u64) -> (r: std::cmp::Ordering)
+//@   sub R11 `lc_id_map.get(&m.lifecycle)` => `vx_lc_get(lc_id_map, &m.lifecycle)`
+//@   spec
+//@|    ensures
+//@|        r is Less <==> msg_time(*m) < time_us, // O:lookup.time.cmp
+//@|        r is Equal <==> msg_time(*m) == time_us,
+//@ end
 pub open spec fn time_sorted(all: Seq<DltMessage>) -> bool { forall|i: int, j: int| 0 <= i < j < all.len() ==> msg_time(#[trigger] all[i]) <= msg_time(#[trigger] all[j]) }
 // std: <[T]>::binary_search_by(|m| msg_time(m).cmp(&t)): "if there are multiple matches, then any one of the matches could be returned"
 #[verifier::external_body]
@@ -169,10 +203,10 @@ pub fn vx_partition_point_time(all: &Vec<DltMessage>, t: u64) -> (r: usize)
         r <= all@.len(),
         time_sorted(all@) ==> (forall|j: int| 0 <= j < r ==> msg_time(#[trigger] all@[j]) < t) && (forall|j: int| r <= j < all@.len() ==> msg_time(#[trigger] all@[j]) >= t),
 { unimplemented!() }
-//@ extract src/bin/adlt/remote.rs region `let all_msgs_idx = fc` .. `if stream.filters_active {` in fn binary_search_by_time_us
+//@ extract src/bin/adlt/remote.rs region `let all_msgs_idx = fc` .. `$end` in fn binary_search_by_time_us
 //@   sig pub fn lookup_by_time(time_us: u64, all_msgs: &Vec<DltMessage>, stream: &StreamContext) -> (r: usize)
-//@   sub R11 `fc .all_msgs .binary_search_by(|m| { let m_time = if let Some(lc_start_time) = lc_id_map.get(&m.lifecycle) { lc_start_time + m.timestamp_us() } else { m.reception_time_us }; m_time.cmp(&time_us) }) .unwrap_or_else(|e| e)` => `vx_ok_or_err(vx_bsearch_time(all_msgs, time_us))` ?
-//@   sub R11 `fc .all_msgs .partition_point(|m| { let m_time = if let Some(lc_start_time) = lc_id_map.get(&m.lifecycle) { lc_start_time + m.timestamp_us() } else { m.reception_time_us }; m_time < time_us })` => `vx_partition_point_time(all_msgs, time_us)` ?
+//@   sub R11 `fc .all_msgs .binary_search_by(__) .unwrap_or_else(|e| e)` => `vx_ok_or_err(vx_bsearch_time(all_msgs, time_us))` ?
+//@   sub R11 `fc .all_msgs .partition_point(__)` => `vx_partition_point_time(all_msgs, time_us)` ?
 //@   sub R11 `stream .filtered_msgs .binary_search(&all_msgs_idx) .unwrap_or_else(|e| e)` => `vx_ok_or_err(vx_bsearch_usize(&stream.filtered_msgs, all_msgs_idx))`
 //@   spec
 //@|    requires
@@ -203,9 +237,9 @@ pub fn vx_bsearch_filtered_time(filtered: &Vec<usize>, all: &Vec<DltMessage>, ms
             && (forall|j: int| 0 <= j < r->Err_0 ==> msg_time(all@[#[trigger] filtered@[j] as int]) < msg_time(*msg))
             && (forall|j: int| r->Err_0 <= j < filtered@.len() ==> msg_time(all@[#[trigger] filtered@[j] as int]) > msg_time(*msg)),
 { unimplemented!() }
-//@ extract src/bin/adlt/remote.rs region `let wanted_msg = fc` .. `if let Some((all_msgs_idx,` in fn binary_search_by_msg_index
+//@ extract src/bin/adlt/remote.rs region `>if fc.sort_by_time {` .. `$end` in fn binary_search_by_msg_index
 //@   sig pub fn lookup_by_index_sorted(wanted_msg_idx: DltMessageIndexType, all_msgs: &Vec<DltMessage>, stream: &StreamContext) -> (r: Result<usize, String>)
-//@   sub R11 `fc .all_msgs .iter() .enumerate() .find(|(_all_msgs_idx, m)| m.index == wanted_msg_idx)` => `vx_find_by_index(all_msgs, wanted_msg_idx)`
+//@   sub R11 `fc .all_msgs .iter() .enumerate() .find(__)` => `vx_find_by_index(all_msgs, wanted_msg_idx)`
 //@   cut R11 `let lc_id_map =` ?
 //@   cut R11 `let wanted_msg_time_us =` ?
 //@   sub R11 `stream .filtered_msgs .binary_search_by(|f_idx| { let msg = fc.all_msgs.get(*f_idx).unwrap(); let m_time = if let Some(lc_start_time) = lc_id_map.get(&msg.lifecycle) { lc_start_time + msg.timestamp_us() } else { msg.reception_time_us }; m_time.cmp(&wanted_msg_time_us) }) .unwrap_or_else(|e| e)` => `vx_ok_or_err(vx_bsearch_filtered_time(&stream.filtered_msgs, all_msgs, msg))` ?
@@ -218,5 +252,21 @@ pub fn vx_bsearch_filtered_time(filtered: &Vec<usize>, all: &Vec<DltMessage>, ms
 //@|    ensures
 //@|        r is Ok ==> exists|a: int| 0 <= a < all_msgs@.len() && (#[trigger] all_msgs@[a]).index == wanted_msg_idx && is_first_not_before(stream, a, r->Ok_0 as int), // O:lookup.index_sorted
 //@|        r is Err ==> forall|i: int| 0 <= i < all_msgs@.len() ==> (#[trigger] all_msgs@[i]).index != wanted_msg_idx, // O:lookup.index_sorted_unknown
+//@ end
+
+// the closures handed to std's searches by binary_search_by_msg_index: #1 the `find` predicate of the sort-by-time branch,
+// #3 the comparator of the sort-by-index branch (#2 and #4 are `|e| e`); the stubs above assume exactly these meanings
+//@ extract src/bin/adlt/remote.rs closure fn binary_search_by_msg_index#1
+//@   sig pub fn lookup_find_pred(m: &DltMessage, wanted_msg_idx: DltMessageIndexType) -> (r: bool)
+//@   spec
+//@|    ensures r == (m.index == wanted_msg_idx), // O:lookup.find.pred
+//@ end
+//@ extract src/bin/adlt/remote.rs closure fn binary_search_by_msg_index#3
+//@   unless `.binary_search_by(|f_idx|`
+//@   sig pub fn lookup_index_cmp(m: &DltMessage, wanted_msg_idx: DltMessageIndexType) -> (r: std::cmp::Ordering)
+//@   spec
+//@|    ensures
+//@|        r is Less <==> m.index < wanted_msg_idx, // O:lookup.index.cmp
+//@|        r is Equal <==> m.index == wanted_msg_idx,
 //@ end
 // ---- end of units/streamsearch/part.rs ----
